@@ -1,15 +1,15 @@
 #!/bin/bash
-# usage: import_mutant.sh C06 A "C06,C13"   -> seeded/C06-A/{patch.diff,demo.py,meta.json}
-P=$1; L=$2; CW=${3:-$1}
-D=/verif/seeded/$P-$L
+# usage: import_mutant.sh C06 A C "C06,C13" [srcroot]  -> seeded/C06-C/{patch.diff,demo.py,meta.json} from <srcroot>/C06/_mutant/A.*
+P=$1; L=$2; N=$3; CW=${4:-$1}; SRC=${5:-/tmp/mut2}
+D=/verif/seeded/$P-$N
 mkdir -p $D
-cp /tmp/mut/$P/_mutant/$L.diff $D/patch.diff
-cp /tmp/mut/$P/_mutant/${L}_demo.py $D/demo.py
-python3 - "$P" "$L" "$CW" <<'PY'
+cp $SRC/$P/_mutant/$L.diff $D/patch.diff
+cp $SRC/$P/_mutant/${L}_demo.py $D/demo.py
+python3 - "$P" "$L" "$N" "$CW" "$SRC" <<'PY'
 import json, sys
-p, l, cw = sys.argv[1:4]
-txt = open(f"/tmp/mut/{p}/_mutant/{l}.txt").read().strip()
-meta = {"property": p, "name": f"{p}-{l}", "origin": "independent sub-agent given only the property text and a scratch worktree", "description_and_manifestation": txt, "check_with": cw.split(",")}
-json.dump(meta, open(f"/verif/seeded/{p}-{l}/meta.json", "w"), indent=1)
+p, l, n, cw, src = sys.argv[1:6]
+txt = open(f"{src}/{p}/_mutant/{l}.txt").read().strip()
+meta = {"property": p, "name": f"{p}-{n}", "origin": "independent sub-agent (round 2) given only the property text, the list of changes already tried, and a scratch worktree", "description_and_manifestation": txt, "check_with": cw.split(",")}
+json.dump(meta, open(f"/verif/seeded/{p}-{n}/meta.json", "w"), indent=1)
 PY
 echo imported $D
